@@ -94,6 +94,9 @@ def run(ctx):
     ctx.tlc("TablesPar.tla", "TablesPar_mc_quick.cfg", timeout=900)
     if not q:
         ctx.tlc("TablesPar.tla", "TablesPar_mc_thorough.cfg", timeout=2400)
+    # TablesPar (shape in constants) implements TablesParDyn (shape in the state), which is what
+    # the traces of arbitrary inputs are validated against
+    ctx.tlc("TablesPar_refines.tla", "TablesPar_refines.cfg", timeout=900, label="refinement")
     neg = ctx.tlc("TablesPar.tla", "TablesPar_nobarrier.cfg", timeout=600, expect_ok=False, count=False)
     if not (neg.error and "BarrierRespected" in neg.out):
         raise vlib.Infra("negative control: the model without the first barrier did not violate BarrierRespected")
